@@ -133,6 +133,7 @@ func dmObserve(c *fw.Ctx, req Req) (*refdec.DMResult, bool) {
 		return nil, false
 	}
 	c.Cover("outcome", "accepted")
+	retainObserve(c, "datamatrix", o.bc, inner, 3)
 	g, err := grid2D(o.bc)
 	if err != nil {
 		c.Violation("dm/image", err.Error(), inner, "")
